@@ -33,7 +33,7 @@ import tempfile
 import threading
 from pathlib import Path
 
-from . import core, lib, pygen
+from . import c17_env, core, lib, pygen
 
 PY = "/venv/bin/python"
 CHILD = os.path.join(os.path.dirname(os.path.abspath(__file__)), "c17_child.py")
@@ -773,7 +773,7 @@ def run(tier, seed, replay=None):
         def res(p):
             try:
                 return [str(Path(p).resolve())]
-            except (ValueError, OSError):
+            except (ValueError, OSError, RuntimeError):   # NUL byte; symlink loop (RuntimeError from Path.resolve)
                 return []
         oracles = {"py_resolve": res, "py_analyze": lambda p: H.analyze_python_file(Path(p))[0],
                    "py_shadow": lambda c: (Path(c) / "calendar.py").exists() or (Path(c) / "calendar").is_dir()}
@@ -962,6 +962,13 @@ def run(tier, seed, replay=None):
                                                "tokens": toks, "head": list(head), "analysis_cwd": work,
                                                "signature_text": "placement: " + " ".join(["python"] + toks[1:])})
         out.extra["placement_pairs_checked"] = suffix_checked
+
+        # =================================================================== environment of the script
+        if not replay or replay.get("env_case") is not None:
+            def model_classify(c):
+                return model.call(["py_classify", [os.path.join(c.root, c.cwd)], decoy, c.tokens], oracles)
+            out.extra["environment"] = c17_env.run_env(out, H, AN, cfg, scratch.root, tier, rng, replay if replay else None,
+                                                       model_classify if model.available else None)
     finally:
         os.chdir(old_cwd)
         model.close()
